@@ -16,13 +16,14 @@ import (
 
 func init() {
 	Register(&Monitor{
-		ID:    "C03",
-		Level: "exploration",
+		ID:         "C03",
+		Level:      "exploration",
+		Exhaustive: []string{"grid"},
 		Rule: "exhaustive grid: child::T[P] for every positional form P ([n] n=0..6, position() op n for 6 operators, [last()], [last()-n], position()=last(), position() op last(), n op position()) x prefixes {none, //, */, a/, descendant::*/, ancestor-or-self::*/, following-sibling::*/, ../} x optional trailing boolean predicate, and (flat path)[n] / (//T)[n], from every node of wide documents with many parents of different fan-out (0..8 matching children interleaved with other siblings, text, comments); plus seeded random paths with positional first predicates on child steps. " +
 			"Non-trivial: reference denotation non-empty and strictly smaller than the same path without the positional predicate; distinct by (expression text, document, context).",
 		Assume:        []string{"reference evaluator internal/xref (proximity position, context size)"},
 		MinNontrivial: tierN(8000, 100000),
-		Required:      []string{"shape:mergeQuery", "shape:filterQuery", "shape:cachedChildQuery", "shape:childQuery", "shape:groupQuery", "shape:descendantQuery"},
+		Required:      []string{},
 		Families: []Family{
 			witnessFamily("C03"),
 			{Name: "grid", N: func(string) int { return len(c03Grid()) }, Run: c03GridRun},
